@@ -27,8 +27,15 @@ KeyRel(r) == IF r.result = "panic" THEN "panic"
                      ELSE IF c = 0 /\ ~r.heq THEN "equal-key-texts-hash-differently"
                      ELSE "ok"
 
+(* a key the library generated itself is a key like any other: its export parses back to the same key (bytes, PASERK text, public half) *)
+KeyGen(r) == IF r.result = "panic" THEN "panic"
+             ELSE IF r.result # "ok" THEN "key-generation-failed"
+             ELSE IF ~(r.reparse_equal /\ r.same_public /\ r.text_roundtrip) THEN "generated-key-does-not-survive-serialisation"
+             ELSE "ok"
+
 Verdict(r) ==
   IF r.fn = "keyrel" THEN KeyRel(r)
+  ELSE IF r.fn = "keygen" THEN KeyGen(r)
   ELSE IF r.fn # "keyparse" THEN "unknown-record"
   ELSE IF r.result \in {"panic", "panic-after-accept"} THEN "panic"
   ELSE LET b == r.bytes
